@@ -132,7 +132,7 @@ func fieldAtom(info *types.Info, sel *ast.SelectorExpr) string {
 	if nt, ok := t.(*types.Named); ok {
 		name = nt.Obj().Name()
 	}
-	return "fld:" + name + "." + v.Name()
+	return "fld:" + name + "." + canonFieldName(v)
 }
 
 // atoms collects the leaves an expression is computed from.
@@ -154,7 +154,11 @@ func (d *Deps) atoms(e ast.Node, out map[string]bool) {
 				out[a] = true
 				if id := baseIdent(x.X); id != nil {
 					if k := d.varKey(id); k != "" {
-						out[k+"."+x.Sel.Name] = true
+						fname := x.Sel.Name
+						if fv := fieldOfSel(d.info, x); fv != nil {
+							fname = canonFieldName(fv)
+						}
+						out[k+"."+fname] = true
 					}
 				}
 			}
@@ -192,7 +196,11 @@ func (d *Deps) lhsLocs(e ast.Expr) []string {
 			return nil
 		}
 		// field store: the specific field location and the whole variable
-		return []string{k + "." + x.Sel.Name, k + ".*"}
+		fname := x.Sel.Name
+		if fv := fieldOfSel(d.info, x); fv != nil {
+			fname = canonFieldName(fv)
+		}
+		return []string{k + "." + fname, k + ".*"}
 	case *ast.IndexExpr, *ast.StarExpr, *ast.SliceExpr:
 		if id := baseIdent(e); id != nil {
 			if k := d.varKey(id); k != "" {
